@@ -117,7 +117,12 @@ def layout(ctx, facts):
     vals = nf.nf(fields["values"], True, res=R) if "values" in fields else ""
     vl = [vals]
     LI = {"((%s << 1) - 2)" % M, "((2 * %s) - 2)" % M, "((%s * 2) - 2)" % M}
-    if li and li[0] in LI and any(("end:(1 + %s)}" % x) in vals or ("end:(%s + 1)}" % x) in vals for x in LI):
+    from .. import reset as _reset
+    sp = _reset.spec_of_expr(fields["values"], fn, []) if "values" in fields else None
+    size = sp.size if sp is not None and sp.kind == "fill" else None      # (0..n).map(..).collect(), vec![c; n], push loop …
+    vl = [vals, "InitSpec %s" % sp]
+    if li and li[0] in LI and (any(("end:(1 + %s)}" % x) in vals or ("end:(%s + 1)}" % x) in vals for x in LI)
+                               or size in {"(1 + %s)" % x for x in LI} | {"(%s + 1)" % x for x in LI}):
         ctx.ok("LAYOUT", MT + "new", "last_index = 2m - 2, 2m - 1 nodes", hirq.loc(fn))
     else:
         ctx.violation("LAYOUT", MT + "new", "node layout", hirq.loc(fn), "last_index = %s, vlen = %s; expected 2m-2 and last_index+1" % (li, vl))
